@@ -525,6 +525,11 @@ func (v *Verifier) specField(env *Env, base Val, name string) Val {
 				return base.Fields[i]
 			}
 		}
+		for i := 0; i < stt.NumFields(); i++ {
+			if stt.Field(i).Embedded() && structHasField(stt.Field(i).Type(), name) && base.Fields[i].K == KStruct {
+				return v.specField(env, base.Fields[i], name)
+			}
+		}
 		encFail("spec: type %s has no field %s", base.T, name)
 	case KLoc:
 		stt, ok := base.Loc.T.Underlying().(*types.Struct)
@@ -532,6 +537,12 @@ func (v *Verifier) specField(env *Env, base Val, name string) Val {
 			for i := 0; i < stt.NumFields(); i++ {
 				if stt.Field(i).Name() == name {
 					return fr.loadLocQuiet(env.cur, fr.subLoc(base.Loc, base.Loc.T, i), stt.Field(i).Type())
+				}
+			}
+			for i := 0; i < stt.NumFields(); i++ {
+				if stt.Field(i).Embedded() && structHasField(stt.Field(i).Type(), name) {
+					sl := fr.subLoc(base.Loc, base.Loc.T, i)
+					return v.specField(env, Val{K: KLoc, T: types.NewPointer(stt.Field(i).Type()), Loc: sl}, name)
 				}
 			}
 		}
